@@ -188,6 +188,36 @@ def run(phase, cases, ctx):
                 cmp(case, 'polariser.T', Pol.T, mP.T)
                 cmp(case, 'R(a).T.T', R.T.T, mR)
                 cmp(case, 'R(a).I', R.I, mRt)
+                # the same rotation when its angles are abstract values: the operator handed to a jitted function as an argument,
+                # and built inside vmap over a batch of angle arrays (what is not supported is skipped; only wrong values count)
+                import equinox as eqx
+
+                nS = mR.shape[1]
+                xv = (np.arange(nS) % 5) + 1.0
+                xS = P.unflat(xv, S)
+                for label, o_, ref_ in (('R(a) as a jit argument', R, mR), ('R(a).T as a jit argument', R.T, mRt)):
+                    try:
+                        got = P.flat(P.lib(label, eqx.filter_jit(lambda o, v: o.mv(v)), o_, xS))
+                    except P.LibError:
+                        counters['traced_angle_contexts_unsupported'] += 1
+                        continue
+                    counters['comparisons'] += 1
+                    if not P.close(got, ref_ @ xv, tol):
+                        violations.append({'kind': 'wrong-with-traced-angles', 'case': case, 'detail': f'{label}: {got[:6]} instead of {(ref_ @ xv)[:6]}'})
+                try:
+                    A2 = jnp.stack([a, a + jnp.asarray(0.25, D)])
+                    Y = P.lib('vmap over angles', jax.vmap(lambda ang: QURotationOperator(ang, S).mv(xS)), A2)
+                    Yt = P.lib('vmap over angles (transpose)', jax.vmap(lambda ang: QURotationOperator(ang, S).T.mv(xS)), A2)
+                except P.LibError:
+                    counters['traced_angle_contexts_unsupported'] += 1
+                else:
+                    for k_, da in enumerate((0.0, 0.25)):
+                        for lab_, Y_, which in (('R', Y, 'rot'), ('R.T', Yt, 'rot_t')):
+                            ref_ = stokes_matrix(kind, shape, which, full + da) @ xv
+                            got = P.flat(jax.tree.map(lambda l, k_=k_: l[k_], Y_))
+                            counters['comparisons'] += 1
+                            if not P.close(got, ref_, tol):
+                                violations.append({'kind': 'wrong-with-traced-angles', 'case': case, 'detail': f'{lab_}(a + {da}) built under vmap over the angles: {got[:6]} instead of {ref_[:6]}'})
                 # algebraic identities realised by the library, before and after reduction
                 b = jnp.asarray(0.45, D)
                 R2 = QURotationOperator(b, S)
